@@ -88,10 +88,18 @@ mod params_builder {
 		/// The _name_ and _value_ are delimited by the `:` token.
 		pub(crate) fn insert_named<P: Serialize>(&mut self, name: &str, value: P) -> Result<(), serde_json::Error> {
 			self.maybe_initialize();
+			let len = self.bytes.len();
 
-			serde_json::to_writer(&mut self.bytes, name)?;
+			if let Err(e) = serde_json::to_writer(&mut self.bytes, name) {
+				// Discard what has been written so far, the builder must stay valid.
+				self.bytes.truncate(len);
+				return Err(e);
+			}
 			self.bytes.push(b':');
-			serde_json::to_writer(&mut self.bytes, &value)?;
+			if let Err(e) = serde_json::to_writer(&mut self.bytes, &value) {
+				self.bytes.truncate(len);
+				return Err(e);
+			}
 			self.bytes.push(b',');
 
 			Ok(())
@@ -100,8 +108,13 @@ mod params_builder {
 		/// Insert a plain value into the builder.
 		pub(crate) fn insert<P: Serialize>(&mut self, value: P) -> Result<(), serde_json::Error> {
 			self.maybe_initialize();
+			let len = self.bytes.len();
 
-			serde_json::to_writer(&mut self.bytes, &value)?;
+			if let Err(e) = serde_json::to_writer(&mut self.bytes, &value) {
+				// Discard what has been written so far, the builder must stay valid.
+				self.bytes.truncate(len);
+				return Err(e);
+			}
 			self.bytes.push(b',');
 
 			Ok(())
